@@ -762,6 +762,7 @@ impl<'a> Repr<'a> {
             } => {
                 packet.set_msg_type(Message::DstUnreachable);
                 packet.set_msg_code(reason.into());
+                packet.buffer.as_mut()[field::UNUSED].fill(0);
 
                 emit_contained_packet(packet, header, data);
             }
@@ -781,6 +782,7 @@ impl<'a> Repr<'a> {
             } => {
                 packet.set_msg_type(Message::TimeExceeded);
                 packet.set_msg_code(reason.into());
+                packet.buffer.as_mut()[field::UNUSED].fill(0);
 
                 emit_contained_packet(packet, header, data);
             }
